@@ -609,12 +609,13 @@ package parser
 //@   ensures [nonneg] result >= 0
 //@   loop 1 invariant 0 <= iterpos && iterpos <= len(s) && bnd(s, iterpos) && n == u16(s, iterpos) && n >= 0
 //@ func parseTags
-//@   props C08 C06
+//@   props C08 C06 C20
 //@   ensures [C08:tag_position] forall k int :: {result[k]} 0 <= k && k < len(result) ==> TagAt(text, basePos, result[k])
 //@   ensures [C08:tags_in_order] forall k int :: {result[k]} 0 < k && k < len(result) ==> result[k - 1].Range.End.Offset <= result[k].Range.Start.Offset
 //@   loop 1 invariant 0 - 1 <= rangeindex && 0 <= searchStart && searchStart <= len(text) && (fresh(tags) || len(tags) == 0)
 //@   loop 1 invariant forall k int :: {tags[k]} 0 <= k && k < len(tags) ==> TagAt(text, basePos, tags[k]) && tags[k].Range.End.Offset <= basePos.Offset + 1 + searchStart
 //@   loop 1 invariant forall k int :: {tags[k]} 0 < k && k < len(tags) ==> tags[k - 1].Range.End.Offset <= tags[k].Range.Start.Offset
+//@   loop 1 exhaustive
 //@   loop 1 decreases len(parts) - rangeindex
 //@ trusted normalizeNumber
 
